@@ -64,6 +64,8 @@ func main() {
 		}
 		b, _ := json.MarshalIndent(out, "", " ")
 		fmt.Println(string(b))
+	case "anchors":
+		os.Exit(cmdAnchors(os.Args[2:]))
 	case "writers":
 		os.Exit(cmdWriters(os.Args[2:]))
 	case "paths":
@@ -398,5 +400,45 @@ func cmdExplain(args []string) int {
 		fmt.Printf("VIOLATION property=%s replay=%s\n", rec.Property, args[0])
 		return 1
 	}
+	return 0
+}
+
+// cmdAnchors prints the frozen table of field anchors and their types as Go
+// source (anchors_gen.go). It is run by hand on a tree where every anchor
+// resolves by name; the table lets Field() recognise a renamed field by its
+// type when the name gives no clue.
+func cmdAnchors(args []string) int {
+	repo := "/repo"
+	if len(args) > 0 {
+		repo = args[0]
+	}
+	prog, err := Load(repo, "")
+	if err != nil {
+		fmt.Fprintln(os.Stderr, err)
+		return 2
+	}
+	var ids []string
+	for id := range properties {
+		ids = append(ids, id)
+	}
+	sort.Strings(ids)
+	for _, id := range ids {
+		for _, r := range properties[id].Rules {
+			func() {
+				defer func() { recover() }()
+				r.Run(&Ctx{P: prog, Tier: "quick", res: &RuleResult{Rule: r.Name}})
+			}()
+		}
+	}
+	var keys []string
+	for k := range prog.fieldSeen {
+		keys = append(keys, k)
+	}
+	sort.Strings(keys)
+	fmt.Println("// Code generated by `resverif anchors`; DO NOT EDIT.\n\npackage main\n\n// anchorFieldTypes: field anchors used by the rules and the type each had on the tree the rules were written for.\nvar anchorFieldTypes = map[string]string{")
+	for _, k := range keys {
+		fmt.Printf("\t%q: %q,\n", k, prog.fieldSeen[k])
+	}
+	fmt.Println("}")
 	return 0
 }
